@@ -56,6 +56,14 @@ def c_trailing_newline_sid(v):
             and c.get("got_type") and c.get("got_type") == c.get("type_without_trailing_nl"))
 
 
+def c_trailing_newline_nav(v):
+    """Navigation of a Sid that was typed only because '$' matched before its trailing newline."""
+    c = _case(v)
+    s = c.get("s")
+    return (isinstance(s, str) and s.endswith("\n") and not s.endswith("\n\n")
+            and c.get("got_type") and c.get("got_type") == c.get("type_without_trailing_nl"))
+
+
 def c_trailing_newline_path(v):
     p = _case(v).get("path")
     return isinstance(p, str) and p.endswith("\n") and not p.endswith("\n\n")
@@ -70,6 +78,7 @@ def c_glob_charclass(v):
 CLASSIFIERS = {
     "trailing_newline_sid": c_trailing_newline_sid,
     "trailing_newline_path": c_trailing_newline_path,
+    "trailing_newline_nav": c_trailing_newline_nav,
     "glob_charclass": c_glob_charclass,
 }
 
